@@ -262,6 +262,50 @@ def boundClauses (comp : String) (m : POMDP) (r : Refs) (b0 : Vec) (lb ub : Rat)
     let l := r.L p; if decide (l ≤ val + eps) then none else some s!"point={showVec p} value={ratStr val} ref={ratStr l}")
   v.failIf resP.isSome s!"{comp} ubV_point_below_optimal_value {resP.getD ""}"
 
+def matRows (Q : Mat) : List (List Rat) := Q.toList.map (·.toList)
+
+/-- value of `bestPromisingAction<false>` at the unnormalised belief `b` on the surface `(Q, pts)`: the model function -/
+def promisingOn (m : POMDP) (Q : Mat) (pts : Array (Vec × Rat)) (b : Vec) : Option Rat := bestPromisingSaw m Q pts b
+
+/-- upper-bound items of a snapshot that were not there before: stored points and overwritten corner entries -/
+inductive UbItem where
+  | point (b : Vec) (u : Rat)
+  | corner (s a : Nat) (u : Rat)
+
+/-- certify new upper-bound items in any admissible order: an item is accepted when its value is at least the promising backup of its
+    belief on the surface certified so far (events `poolAdd` + `pushPoint` / `setCorner` of `anytime_sound`); accepted items join the surface -/
+def certifyUbPass (m : POMDP) (eps : Rat) (st : Mat × Array (Vec × Rat) × List UbItem) : Mat × Array (Vec × Rat) × List UbItem :=
+  st.2.2.foldl (fun (acc : Mat × Array (Vec × Rat) × List UbItem) it =>
+    let (b, u) := match it with | .point b u => (b, u) | .corner s _ u => (unitV m.S s, u)
+    match promisingOn m acc.1 acc.2.1 b with
+    | some pv => if decide (pv ≤ u + eps) then
+        (match it with
+         | .point b u => (acc.1, acc.2.1.push (b, u), acc.2.2)
+         | .corner s a u => (mkMat m.S m.A (fun s' a' => if s' == s && a' == a then u else acc.1.get s' a'), acc.2.1, acc.2.2))
+      else (acc.1, acc.2.1, acc.2.2 ++ [it])
+    | none => (acc.1, acc.2.1, acc.2.2 ++ [it])) (st.1, st.2.1, [])
+
+/-- one leaf-to-root sweep of model promising backups at the (normalised) reachable beliefs: points that are certified by construction -/
+def enrichUb (m : POMDP) (B : List Vec) (Q : Mat) (pts : Array (Vec × Rat)) : Array (Vec × Rat) :=
+  B.foldl (fun (acc : Array (Vec × Rat)) b =>
+    let ms := mass m.S b.get
+    if decide (ms ≤ 0) then acc else
+    let nb := mkVec m.S (fun s => b.get s / ms)
+    if (List.range m.S).any (fun s => nb.get s == 1) then acc else        -- corners live in Q
+    match promisingOn m Q acc nb with
+    | some pv => if acc.any (fun q => q.1 == nb && decide (q.2 ≤ pv)) then acc else acc.push (nb, pv)
+    | none => acc) pts
+
+def certifyUb (m : POMDP) (eps : Rat) (B : List Vec) (Q0 : Mat) (pts0 : Array (Vec × Rat)) (items : List UbItem) (rounds : Nat) : Nat :=
+  let rec loop (r : Nat) (st : Mat × Array (Vec × Rat) × List UbItem) : Nat :=
+    let s1 := certifyUbPass m eps st
+    let s2 := if s1.2.2.length == 0 || s1.2.2.length == st.2.2.length then s1 else certifyUbPass m eps s1
+    let s3 := if s2.2.2.length == 0 || s2.2.2.length == s1.2.2.length then s2 else certifyUbPass m eps s2
+    match r with
+    | 0 => s3.2.2.length
+    | r+1 => if s3.2.2.length == 0 || s3.2.1.size > 80 then s3.2.2.length else loop r (s3.1, enrichUb m B s3.1 s3.2.1, s3.2.2)
+  loop rounds (Q0, pts0, items)
+
 /-! ### trace validation: every new lower-bound vector must be (dominated by) a point backup of certified vectors -/
 
 /-- `g_o(c)(s) = Σ_s1 T(s,a,s1) O(s1,a,o) c(s1)` -/
@@ -336,7 +380,7 @@ def snapOp : P String := do
   let m ← pomdpP; let b0 ← lvecP
   let algo ← P.tok; let it ← P.nat; let havePrev ← P.bool; let prev ← vlistP false
   let havePrevUb ← P.bool
-  let _prevUb ← (if havePrevUb then do let q ← matP; let p ← ubvP; pure (some (q, p)) else pure none)
+  let prevUb ← (if havePrevUb then do let q ← matP; let p ← ubvP; pure (some (q, p)) else pure none)
   P.bar
   let lb ← P.q; let ub ← P.q; let vl ← vlistP false; let Q ← matP; let pts ← ubvP; P.eof
   if !validModel m then return "skip invalid_model"
@@ -357,16 +401,37 @@ def snapOp : P String := do
     else v
   -- Step: every vector that was not there before is certified by a point backup of certified vectors (SARSOP adds one backup per
   -- sampled node; GapMin's vectors come out of a multi-step PBVI run and are not validated here)
-  if algo == "SARSOP" && havePrev then
+  -- trace validation (upper bound, SARSOP): every stored point / corner entry that was not there before must be worth at least the
+  -- promising backup of its belief on the already certified surface
+  let v := match prevUb with
+    | some (pQ, pPts) =>
+      if algo != "SARSOP" then v else
+      let newPts := pts.toList.filter (fun (p : Vec × Rat) => !(pPts.any (fun q => q.1 == p.1 && q.2 == p.2)))
+      let newCorners := (List.range m.S).flatMap (fun s => (List.range m.A).filterMap (fun a =>
+        if Q.get s a == pQ.get s a then none else some (UbItem.corner s a (Q.get s a))))
+      let items := newCorners ++ newPts.map (fun (p : Vec × Rat) => UbItem.point p.1 p.2)
+      if items.length == 0 then { v with tag := v.tag ++ " ubtrace_no_change" }
+      else if items.length + pPts.size > 60 then { v with tag := v.tag ++ " ubtrace_too_large" }
+      else
+        let left := certifyUb m eps (reachable m b0 2) pQ pPts items 4
+        { v with tag := v.tag ++ (if left == 0 then " ubtrace_certified" else " ubtrace_unjustified") }
+    | none => v
+  if havePrev then
     let prevA := prev.map (·.values)
     let news := vl.toList.filter (fun e => !(prevA.any (fun p => p == e.values)))
     if news.length == 0 then return { v with tag := v.tag ++ " trace_no_new_vector" }.render
     if prevA.size + news.length > 40 || m.O > 4 then return { v with tag := v.tag ++ " trace_too_large" }.render
-    let (cert, left) := justify m eps (reachable m b0 2) prevA (news.map (fun e => (e.action, e.values))) 8
+    let (cert, left) := justify m eps (reachable m b0 2) prevA (news.map (fun e => (e.action, e.values))) (if algo == "SARSOP" then 8 else 14)
     -- the certificate is re-checked by the verified checker `certChain` (Props/C03Trace: `certChain_sound`)
     let okChain := (certChain m eps prevA cert).isSome
     let v := v.diffIf (!okChain) s!"{algo} trace_certificate_rejected"
     let v := { v with tag := v.tag ++ (if left == 0 then " trace_certified" else " trace_unjustified") }
+    -- not certified: undecided by the kernel clause, so probe harder — every belief of the explored tree near the root
+    let v := if left == 0 then v else
+      let res := vecAbove m (news.map (·.values)) ((reachable m b0 2).filterMap (fun x =>
+        let ms := mass m.S x.get
+        if decide (ms ≤ 0) then none else let nx := mkVec m.S (fun s => x.get s / ms); some (nx, r.U nx))) eps
+      v.failIf res.isSome s!"{algo} lb_vector_above_optimal_value {res.getD ""}"
     return v.render
   return v.render
 
@@ -402,7 +467,6 @@ def consOp : P String := do
   let v := v.failIf res.isSome s!"bestConservativeAction alpha_above_optimal_value{if asModel then "" else "_and_model_mismatch"} {res.getD ""}"
   return v.render
 
-def matRows (Q : Mat) : List (List Rat) := Q.toList.map (·.toList)
 
 /-- `prom <pomdp> <b0> b useLP ubQ ubV | action value vals` -/
 def promOp : P String := do
@@ -411,15 +475,8 @@ def promOp : P String := do
   let ia ← P.nat; let iv ← P.q; let ivals ← lvecP; P.eof
   if !validModel m then return "skip invalid_model"
   let eps := epsOf m
-  -- model: sawtooth reading of the surface (for LP the sawtooth value is an upper estimate of the LP optimum)
-  let saw (x : Vec) : Option Rat :=
-    (AITB.Interp.sawtooth AITB.Interp.srcVariant x.toList (matRows Q) m.A (pts.toList.map (·.1.toList)) (pts.toList.map (·.2))).map (·.value)
-  let mvals : Array (Option Rat) := (Array.range m.A).map (fun a =>
-    (List.range m.O).foldl (fun acc o => match acc with
-      | none => none
-      | some s =>
-        let nb := bstepV m b a o
-        if checkEqualSmall (mass m.S nb.get) 0 then some s else (saw nb).map (fun t => s + t)) (some 0) |>.map (fun s => rew m b.get a + m.γ * s))
+  -- model: `promisingActSaw` (AITB.Model.POMDP3), the observation loop of bestPromisingAction<false> over the C12 sawtooth model
+  let mvals : Array (Option Rat) := (Array.range m.A).map (promisingActSaw m Q pts b)
   let v : Verdict := { tag := if lp then "bestPromisingAction_lp" else "bestPromisingAction_sawtooth" }
   let v := v.diffIf (ivals.size != m.A) "bestPromisingAction vals_size"
   let res := firstSome (List.range m.A) (fun a => match mvals.getD a none with
